@@ -22,6 +22,21 @@ CLAIMED = {
          "Every shape of the catalogue (all reachable edge sets over <=N blocks, link forms direct/inline/nested/list, field order, raw leaves, duplicate links), every selector of the catalogue and every one of the 4^N splits of the blocks between the two stores is run as one real two-node exchange through the real wire encoding; delivered nodes (in order), missing-block errors and the final store are compared with go-ipld-prime's own walker over the statement's loading rule. Exhaustive over the stated finite space; not a proof for larger DAGs.",
          "Trusted: go-ipld-prime's walker as the meaning of selector traversal; the fake FIFO lossless network; default schedule only (schedules are C06/C20's subject). Two genuine defects are recorded as known findings (responder lacks root; skip window misaligned), one was repaired (fix: path-length heuristic).",
          "DESIGN.md 6 C02"),
+ "C15": ("model_checking",
+         "stateless deviation-bounded DFS over schedules and injected send/connect failures of the real assembler->queue->allocator pipeline under a controlled scheduler",
+         "Scripts of response transactions (small blocks, 300KiB blocks that force several builders, the same block for two requests, extension data, finish) run against the real ResponseAssembler, PeerMessageManager, MessageQueue, notifications publisher and Allocator; every schedule and every placement of send/connect failures within the deviation bound (2 quick, 3 thorough) is executed. Oracle: no reservation failed before data was queued, and at the idle point (connection up, nothing queued) the peer's accounted memory and the allocator's totals are zero; a driver stalled forever on memory is reported. Five genuine defects are recorded as known findings, one repaired.",
+         "Trusted: vsched's model of Go synchronisation, data-race freedom between scheduling points, one map-iteration order, the fake MessageNetwork. Bounded: <=6 transactions, <=2 requests, deviation bound as stated.",
+         "DESIGN.md 6 C15"),
+ "C16": ("model_checking",
+         "stateless deviation-bounded DFS over schedules, queue shutdowns and injected send/connect failures on the real message queue and publisher",
+         "Driver threads queue requests and response transactions while another thread disconnects the peer; send and connect failures are environment choices and dials/writes are in-flight scheduling points. Every (builder, subscriber) attachment is given a recording proxy; at final quiescence each attachment that was not scrubbed must have seen exactly one Sent or Error. All schedules within the deviation bound (2, selected scenarios 3; thorough 3) are executed.",
+         "Trusted: as C15. The scrub exemption of DESIGN 7 applies. One genuine defect (messages left in a shut-down queue) is a known finding.",
+         "DESIGN.md 6 C16"),
+ "C17": ("model_checking",
+         "stateless deviation-bounded DFS over interleavings of Connected/Disconnected, queue self-shutdown and concurrent sends on the real PeerMessageManager + MessageQueue",
+         "Two or three driver threads (connect/disconnect sequences; numbered sends) plus every valid single-threaded operation sequence up to length 4 (5 thorough) over {Connected, Disconnected, send} with connect/send failures as environment choices. Oracles: at every queue creation no other queue of the peer is live; after a final Connected/Disconnected pair and quiescence no queue goroutine is alive; per driver thread, items leave in build order and never by two queues at once. All schedules within deviation bound 2 (3 for the core scenario; thorough 3).",
+         "Trusted: as C15. 'live' = started and not yet told to shut down (DESIGN 7). One defect repaired (successor entry deleted), one recorded (old queue still sending after disconnect).",
+         "DESIGN.md 6 C17"),
 }
 
 # properties not (yet) claimed -> reason
